@@ -139,12 +139,15 @@ pub fn run(tape: &[u8], cx: &Cx) -> Outcome {
     // in-range characters are preserved in order (as a subsequence) even when others are replaced
     if ok1 {
         let kept: Vec<u32> = text_cps.iter().copied().filter(|&c| c <= MAXC).collect();
-        let mut it = s1.as_ref().iter();
-        if !kept.iter().all(|c| it.any(|d| d == c)) {
-            o.fail("C17/text-constructor-changes-valid", format!("SmtString::from({:?}) = {} loses valid characters", text, show_str(s1.as_ref())));
+        for (name, sx) in [("&str", &s1), ("String", &s2)] {
+            let mut it = sx.as_ref().iter();
+            if !kept.iter().all(|c| it.any(|d| d == c)) {
+                o.fail("C17/text-constructor-changes-valid", format!("SmtString::from({} {:?}) = {} loses valid characters", name, text, show_str(sx.as_ref())));
+            }
         }
     }
     usable(&s1, "from(&str)", &mut o);
+    usable(&s2, "from(String)", &mut o);
     usable(&s3, "from(char)", &mut o);
 
     // --- integer constructors: x <= MAX kept, others replaced by 0xFFFD
@@ -158,7 +161,19 @@ pub fn run(tape: &[u8], cx: &Cx) -> Outcome {
     }
     let a4 = SmtString::from(&arr);
     let exp4: Vec<u32> = arr.iter().map(|&c| if c <= MAXC { c } else { 0xFFFD }).collect();
-    for (name, got, e) in [("from(&[u32])", &a1, &exp), ("from(Vec<u32>)", &a2, &exp), ("from(&[u32;3])", &a4, &exp4)] {
+    // arrays of other sizes (the impl is generic in N): 1, 8, 33 elements taken cyclically from the list
+    fn arr_of<const N: usize>(ints: &[u32], x: u32) -> [u32; N] {
+        let mut a = [0u32; N];
+        for (i, slot) in a.iter_mut().enumerate() {
+            *slot = if ints.is_empty() { x } else { ints[i % ints.len()] };
+        }
+        a
+    }
+    let fix = |v: &[u32]| -> Vec<u32> { v.iter().map(|&c| if c <= MAXC { c } else { 0xFFFD }).collect() };
+    let (b1, b8, b33) = (arr_of::<1>(&ints, x), arr_of::<8>(&ints, x), arr_of::<33>(&ints, x));
+    let (g1, g8, g33) = (SmtString::from(&b1), SmtString::from(&b8), SmtString::from(&b33));
+    let (e1, e8, e33) = (fix(&b1), fix(&b8), fix(&b33));
+    for (name, got, e) in [("from(&[u32])", &a1, &exp), ("from(Vec<u32>)", &a2, &exp), ("from(&[u32;3])", &a4, &exp4), ("from(&[u32;1])", &g1, &e1), ("from(&[u32;8])", &g8, &e8), ("from(&[u32;33])", &g33, &e33)] {
         o.evals += 1;
         if got.as_ref() != &e[..] {
             o.fail("C17/int-constructor", format!("SmtString::{} on {:x?} = {}, expected {}", name, ints, show_str(got.as_ref()), show_str(e)));
